@@ -161,4 +161,186 @@ theorem ext_fireNode (s : State) (i : Nat) : Ext s (s.fireNode i) := by
   rw [fireNode_eq]
   exact fires_inv (fun x => Ext s x) i (fun x h => h.trans (ext_fire x i)) _ s (Ext.refl s)
 
+theorem ext_fairCatch (s : State) : Ext s s.fairCatch := (ext_forAll _ _ ext_fireNode).trans (ext_settle _)
+
+/-! ### the invariant of DrandProofs/C07QuietInv.lean through fair sub-rounds -/
+
+/-- every running node has no switch registered and holds a share of an epoch that is not scheduled to end: the resharing
+is over for everybody who runs -/
+def Final (nxt : Nat → Option Nat) (s : State) : Prop :=
+  ∀ k, (s.node k).up = true → (s.node k).pend = none ∧ nxt (s.node k).vault.epoch = none
+
+theorem Final.ext {nxt : Nat → Option Nat} {s s' : State} (h : Final nxt s) (e : Ext s s') : Final nxt s' := by
+  intro k hu
+  have hn := e.node k
+  have hu' : (s.node k).up = true := hn.1 ▸ hu
+  obtain ⟨hp, hx⟩ := h k hu'
+  obtain ⟨hv, hp'⟩ := hn.2.2.2 hp
+  exact ⟨hp', by rw [hv]; exact hx⟩
+
+structure Good (nxt : Nat → Option Nat) (s : State) : Prop where
+  sane : Sane nxt s
+  fin : Final nxt s
+
+theorem good_tick {nxt : Nat → Option Nat} (s : State) (i : Nat) (h : Good nxt s) : Good nxt (s.tick i) :=
+  ⟨sane_apply h.sane (.tick i) (fun hu t ht => by rw [(h.fin i hu).2] at ht; cases ht), h.fin.ext (ext_tick s i)⟩
+
+theorem good_fire {nxt : Nat → Option Nat} (s : State) (i : Nat) (h : Good nxt s) : Good nxt (s.fire i) :=
+  ⟨sane_apply h.sane (.fire i) (fun hu _ _ _ t ht => by rw [(h.fin i hu).2] at ht; cases ht), h.fin.ext (ext_fire s i)⟩
+
+theorem good_pull {nxt : Nat → Option Nat} (s : State) (i : Nat) (h : Good nxt s) : Good nxt (s.pull i) :=
+  ⟨sane_apply h.sane (.pull i) trivial, h.fin.ext (ext_pull s i)⟩
+
+theorem good_deliverAll {nxt : Nat → Option Nat} (s : State) (h : Good nxt s) : Good nxt s.deliverAll :=
+  ⟨sane_apply h.sane .deliverAll trivial, h.fin.ext (ext_deliverAll s)⟩
+
+theorem good_advance {nxt : Nat → Option Nat} (s : State) (h : Good nxt s) : Good nxt s.advance :=
+  ⟨sane_apply h.sane .advance trivial, fun k hu => h.fin k hu⟩
+
+theorem good_fireNode {nxt : Nat → Option Nat} (s : State) (i : Nat) (h : Good nxt s) : Good nxt (s.fireNode i) := by
+  rw [fireNode_eq]
+  exact fires_inv (Good nxt) i (fun x hx => good_fire x i hx) _ s h
+
+theorem good_settle {nxt : Nat → Option Nat} (s : State) (h : Good nxt s) : Good nxt s.settle :=
+  foldl_inv (Good nxt) State.pull good_pull _ _ (good_deliverAll _ (foldl_inv (Good nxt) State.pull good_pull _ _ h))
+
+theorem good_fairTick {nxt : Nat → Option Nat} (s : State) (h : Good nxt s) : Good nxt s.fairTick :=
+  good_settle _ (foldl_inv (Good nxt) State.tick good_tick _ _ (good_advance s h))
+
+theorem good_fairCatch {nxt : Nat → Option Nat} (s : State) (h : Good nxt s) : Good nxt s.fairCatch :=
+  good_settle _ (foldl_inv (Good nxt) State.fireNode good_fireNode _ _ h)
+
+/-! ### 2. levelling by sync -/
+
+theorem foldl_max_ge' (f : Nat → Bool) (g : Nat → Nat) : ∀ (l : List Nat) (acc : Nat),
+    acc ≤ l.foldl (fun m j => if f j then max m (g j) else m) acc ∧
+    ∀ x ∈ l, f x = true → g x ≤ l.foldl (fun m j => if f j then max m (g j) else m) acc := by
+  intro l
+  induction l with
+  | nil => intro acc; exact ⟨Nat.le_refl _, fun x hx => by cases hx⟩
+  | cons a t ih =>
+    intro acc
+    simp only [List.foldl_cons]
+    obtain ⟨h1, h2⟩ := ih (if f a then max acc (g a) else acc)
+    have hacc : acc ≤ (if f a then max acc (g a) else acc) := by
+      split
+      · exact Nat.le_max_left _ _
+      · exact Nat.le_refl _
+    refine ⟨Nat.le_trans hacc h1, fun x hx hf => ?_⟩
+    rcases List.mem_cons.mp hx with he | ht
+    · have : g x ≤ (if f a then max acc (g a) else acc) := by
+        rw [← he, if_pos hf]; exact Nat.le_max_right _ _
+      exact Nat.le_trans this h1
+    · exact h2 x ht hf
+
+theorem maxPeerHead_ge (s : State) (i m : Nat) (hm : m ∈ (s.node i).recipients i) (hok : s.peerOk i m = true) :
+    (s.node m).head ≤ s.maxPeerHead i := by
+  unfold State.maxPeerHead
+  exact (foldl_max_ge' (fun j => s.peerOk i j) (fun j => (s.node j).head) _ 0).2 m hm hok
+
+theorem tickStep_sync (B i : Nat) (d : Node) (hu : d.up = true) (hg : d.head + 1 < d.clock) :
+    d.clock ≤ (d.tickStep B i).1.syncTo := by
+  unfold Node.tickStep
+  have : Gen.gapSync d.head d.clock = true := by simp [Gen.gapSync, hg]
+  simp only [hu, Bool.not_true, Bool.false_eq_true, if_false, this, if_true]
+  exact Nat.le_max_right _ _
+
+/-- a running sync request up to at least `c`, a peer that stores at least `H < c`: after the pull the node stores at least `H` -/
+theorem pull_reaches (s : State) (j H c : Nat) (hu : (s.node j).up = true) (hsync : c ≤ (s.node j).syncTo) (hc : H < c)
+    (hH : H ≤ s.maxPeerHead j) : H ≤ ((s.pull j).node j).head := by
+  unfold State.pull
+  have h0 : (s.node j).syncTo ≠ 0 := by omega
+  simp only [hu, Bool.not_true, Bool.false_eq_true, if_false, h0]
+  by_cases hf : Gen.syncFilled (s.node j).syncTo (s.node j).head = true
+  · simp only [hf, if_true, setNode_node]
+    have : (s.node j).syncTo ≤ (s.node j).head := by
+      simp only [Gen.syncFilled, Bool.and_eq_true, decide_eq_true_eq] at hf; exact hf.2
+    show H ≤ ((s.node j).setSync 0).head
+    simp only [setSync_head]; omega
+  · simp only [hf, Bool.false_eq_true, if_false]
+    by_cases hm : s.maxPeerHead j ≤ (s.node j).head
+    · simp only [hm, if_true, setNode_node]
+      show H ≤ ((s.node j).setSync 0).head
+      simp only [setSync_head]; omega
+    · simp only [hm, if_false, setNode_node, if_true, setSync_head]
+      rw [(appendTo_frame _ _).1]
+      omega
+
+theorem foldl_pull_other (j : Nat) : ∀ (l : List Nat) (s : State), j ∉ l → (l.foldl State.pull s).node j = s.node j := by
+  intro l
+  induction l with
+  | nil => intro s _; rfl
+  | cons a t ih =>
+    intro s hj
+    simp only [List.foldl_cons]
+    rw [ih (s.pull a) (fun h => hj (by simp [h]))]
+    have hja : j ≠ a := fun h => hj (by simp [h])
+    rcases pull_cases s a with he | he | ⟨_, _, v, he⟩ <;> rw [he]
+    · simp [setNode_node, hja]
+    · simp [setNode_node, hja]
+
+theorem recipients_congr {d d' : Node} (i : Nat) (h : d'.vault = d.vault) : d'.recipients i = d.recipients i := by
+  unfold Node.recipients; rw [h]
+
+/-- **Levelling (resharing model).** In one fair tick sub-round a running node `j` without a registered switch reaches the
+head `H` of any running member `m` of ITS CURRENT group it is connected to both ways (`H` below the round `c` the clocks are
+about to show): its tick sees the gap and launches `RunSync`, the sync pulls from the members of the group in its vault.
+This is how a joiner started the way core starts it (`Catchup`: it holds the NEW group from the start and receives beacons
+only through sync until the transition) follows the chain, and how members of the new group level after the transition. -/
+theorem c07_level (s : State) (j m H c : Nat) (hj : j < s.n) (hjm : j ≠ m)
+    (huj : (s.node j).up = true) (hum : (s.node m).up = true) (hc1 : s.conn j m = true) (hc2 : s.conn m j = true)
+    (hp : (s.node j).pend = none) (hmem : m ∈ (s.node j).recipients j)
+    (hclk : (s.node j).clock + 1 = c) (hH : (s.node m).head = H) (hc : H < c) :
+    H ≤ (s.fairTick.node j).head := by
+  have eAll : Ext s.advance s.fairTick := ext_advance_fairTick s
+  by_cases hjh : H ≤ (s.node j).head
+  · exact Nat.le_trans hjh (eAll.node j).2.2.1
+  · obtain ⟨a1, a2, a3, a4, a5⟩ := foldl_act (fun B i => Node.tickStep B i) (List.range s.advance.n) s.advance List.nodup_range
+    have hA : Ext s.advance (s.advance.forAll State.tick) := ext_forAll _ _ ext_tick
+    have hjA : (s.advance.forAll State.tick).node j = (Node.tickStep s.nIdx j (s.advance.node j)).1 := by
+      have := a4 j
+      simp only [List.mem_range, show j < s.advance.n from hj, if_true] at this
+      exact this
+    have hsync : c ≤ ((s.advance.forAll State.tick).node j).syncTo := by
+      rw [hjA]
+      have := tickStep_sync s.nIdx j (s.advance.node j) huj (by
+        show (s.node j).head + 1 < (s.node j).clock + 1
+        omega)
+      exact Nat.le_trans (Nat.le_of_eq hclk.symm) this
+    obtain ⟨l1, l2, hl⟩ := List.append_of_mem (List.mem_range.mpr (hA.n ▸ hj) : j ∈ List.range (s.advance.forAll State.tick).n)
+    have hnd : (l1 ++ j :: l2).Nodup := hl ▸ List.nodup_range
+    have hj1 : j ∉ l1 := by
+      intro h
+      have := (List.nodup_append.mp hnd).2.2 j h j (by simp)
+      exact this rfl
+    let sA := s.advance.forAll State.tick
+    let s1 := l1.foldl State.pull sA
+    have hs1 : Ext sA s1 := ext_foldl _ ext_pull _ _
+    have hj1n : s1.node j = sA.node j := foldl_pull_other j l1 sA hj1
+    have hAj := hA.node j
+    have hstep : H ≤ ((s1.pull j).node j).head := by
+      apply pull_reaches s1 j H c
+      · rw [hj1n]; exact hAj.1.trans huj
+      · rw [hj1n]; exact hsync
+      · exact hc
+      · have hmem1 : m ∈ (s1.node j).recipients j := by
+          rw [hj1n, recipients_congr j (hAj.2.2.2 hp).1]; exact hmem
+        have hok : s1.peerOk j m = true := by
+          have hup : (s1.node m).up = true := ((hs1.node m).1.trans (hA.node m).1).trans hum
+          have hcn : s1.conn = s.conn := hs1.conn.trans hA.conn
+          have hmj : m ≠ j := fun h => hjm h.symm
+          simp [State.peerOk, hmj, hup, hcn, hc1, hc2]
+        have h2 : H ≤ (s1.node m).head := by
+          have := Nat.le_trans (hA.node m).2.2.1 (hs1.node m).2.2.1
+          rw [← hH]; exact this
+        exact Nat.le_trans h2 (maxPeerHead_ge s1 j m hmem1 hok)
+    have hrest : Ext (s1.pull j) s.fairTick := by
+      have h1 : sA.forAll State.pull = l2.foldl State.pull (s1.pull j) := by
+        show (List.range sA.n).foldl State.pull sA = _
+        rw [hl, List.foldl_append, List.foldl_cons]
+      have h2 : s.fairTick = ((sA.forAll State.pull).deliverAll).forAll State.pull := rfl
+      rw [h2, h1]
+      exact ((ext_foldl _ ext_pull _ _).trans (ext_deliverAll _)).trans (ext_forAll _ _ ext_pull)
+    exact Nat.le_trans hstep (hrest.node j).2.2.1
+
 end Drand.Net.Reshare
